@@ -112,6 +112,10 @@ PROPS = {
     "C10": {"components": [{"name": "stream", "driver": "stream", "streams": ["t"]}, {"name": "poll", "driver": "", "streams": []}, {"name": "e2e", "driver": "e2e", "streams": ["e"]}],
             "rule": STREAM_RULE + " | " + E2E_RULE + "; after teardown in either order: handler exit log, goroutine profile", "trusted_base": TB_COMMON, "modelled": STREAM_MODELLED,
             "assumptions": ["'promptly' is a quiescence statement (no reader parked on a stopped stream in any reachable state) plus 2-3 s deadlines in the harness", "poll mode: per-connection teardown is the same code path by a fact read from listen(); Server.Close in poll mode with the connection still open never reaches it (known finding D17)"]},
+    "C11": {"components": [{"name": "conn", "driver": "conn", "streams": ["k"]}, {"name": "e2e", "driver": "e2e", "streams": ["e"]}],
+            "rule": E2E_RULE + "; handlers keep the argument bytes they were given, callers keep replies (incl. replies placed in a caller-supplied context buffer) and every stream message read with no buffer, all are re-hashed after the rest of the workload, with body codecs whose decoded values alias their input (bytes, code, pb) | " + CONN_RULE + " (context buffers of capacity len-1 / len / len+1 pre-filled with a pattern: bytes beyond the reported length untouched)",
+            "trusted_base": TB_COMMON, "modelled": "the memory discipline of readRequestBody / finishCall / read / callService / stream.ReadMessage is modelled as the automaton M (Model/Prov.lean): pooled read buffers, hand-over paths, release and reuse; whether each path copies before it hands over and before it releases is a fact read from the source on every run (Generated/ProvFacts.lean: nine facts and the translated context-buffer condition); sync.Pool, the buffer package and the body codecs are not modelled",
+            "assumptions": ["NoCopy (server) and NoCopy streams alias the read buffer by contract: excluded, as the property says", "the facts are syntactic (a copy statement precedes the decode and the release; no assignment makes call.Value point into the read buffer): a copy that is present but wrong in length would be caught by the end-to-end re-hash only"]},
     "C04": {"components": [{"name": "server", "driver": "server", "streams": ["s"]}, {"name": "stream", "driver": "stream", "streams": ["t"]}, {"name": "pool", "driver": "pool", "streams": ["p"]}, {"name": "poll", "driver": "", "streams": []}, {"name": "e2e", "driver": "e2e", "streams": ["e"]}],
             "rule": SRV_RULE + " | " + POLL_RULE + " | " + STREAM_RULE + " | " + POOL_RULE + " (the scripted server counts how often the request of each call reaches it, incl. connections dropped under a call while the server stays reachable) | " + E2E_RULE,
             "trusted_base": TB_POOL, "modelled": SRV_MODELLED + " | " + E2E_MODELLED,
@@ -181,6 +185,10 @@ MANIFEST_TEXT = {
         "text": "Lean 4 theorems over T: in every reachable state nobody is parked on a stopped stream; once the client reader has torn down every stream handed to the application is stopped, and once the server connection has torn down every stream of it is stopped; stopping wakes the parked reader with ErrStreamShutdown; a later read or write on a stopped stream fails at once and sends nothing; closing one stream changes no other stream, no unary call and nothing already on its way. The teardown facts (client recv, ServeCodec, the poll-mode EOF branch, Close stops before the handshake, stop sets the flag and broadcasts) are read from the source on every run. Correspondence over the scripted link with parked readers on both sides, Close with messages in flight, cuts at every point; end-to-end: handler exit log and goroutine baselines in poll and non-poll mode.",
         "note": KERNEL_NOTE + "'Promptly' is measured (2-3 s deadlines). Known finding D17: in poll mode Server.Close with a connection still open never runs the per-connection teardown, so its stream handlers stay blocked until the peer closes.",
         "technique": "Lean 4 proof (no-stranded-reader invariant, teardown theorems, frame lemmas) + source-derived teardown facts + state correspondence over a scripted link + end-to-end handler-exit monitors"},
+    "C11": {
+        "text": "Lean 4 theorem over the memory automaton M (read buffers taken from and returned to pools, values handed to user code on the library's paths, reuse of released buffers by later frames): for every history, whatever user code holds after a hand-over on a copying path still reads exactly as at hand-over; every default path (handler arguments, replies incl. caller-supplied buffers, stream messages on both sides, error texts) copies - nine facts read from server.go/conn.go/stream.go on every run; the caller's context buffer is used exactly when the translated source condition holds and nothing is written beyond the reply's length. End-to-end runs re-hash retained arguments, replies and stream messages after further traffic with aliasing codecs; the conn harness checks context-buffer bounds with capacities around the reply length.",
+        "note": KERNEL_NOTE + "The facts are syntactic patterns (copy before decode and before release; no aliasing assignment); sync.Pool and the codecs are outside the model. NoCopy modes are excluded by the property itself.",
+        "technique": "Lean 4 proof (ownership invariant over all histories of M) + source-derived copy facts + translated buffer condition + end-to-end re-hash of retained data + context-buffer bounds monitor"},
     "C04": {
         "text": "Lean 4 theorems over the server-connection automaton S (every interleaving of reader, decode worker, execution workers, handlers, teardown; every request mix incl. all 256 upgrade bytes and junk; every disconnect point): no request is executed or answered twice, no handler or response is phantom, and at the end of the connection every request read was executed exactly once if it had to be and answered exactly once. S is compared state-by-state with the real ServeCodec under scripted schedules; end-to-end runs count executions per call across all configurations and through Transport and Client.",
         "note": KERNEL_NOTE + "Unique sequence numbers per connection are assumed of the peer (the client half proves it of the library's own client). 'Never retries' for Transport/Client is measured end to end.",
